@@ -720,7 +720,9 @@ def behaviour_edit(P, processed, spec):
     """
     Copy of the project in which every ``call k`` in the body of a processed procedure is doubled for duplicated
     kernels and deleted for removed kernels (``processed``: qualified names of the procedures of the graph).
-    Valid when duplicated and removed kernels are distinct and a removed kernel is not below a duplicated one.
+    Valid when duplicated and removed kernels are distinct and a removed kernel is not below a duplicated one
+    (``gen_sequence`` excludes clones that call the removed kernel and sets ``info['rem_keeps_renamed_copy']`` when a
+    subgraph duplication left a renamed copy of the removed kernel: then there is no reference output).
     """
     Q = copy.deepcopy(P)
 
@@ -979,6 +981,12 @@ def gen_sequence(rng, P, exp, meta, allow=(), maxlen=4):
                 n_, tr = rng.choice(ok)
                 traits |= tr
                 opts = {'remove_kernels': [model.procs[n_]['local']]}
+                # DuplicateKernel(duplicate_subgraph=True) made a copy of this kernel under another name: RemoveKernel
+                # addresses kernels by name, so the copy (and its contribution) rightly survives, while
+                # ``behaviour_edit`` shares one body between original and copy -> its output is no reference here
+                if any(w['dup'] and w['origin'] == model.procs[n_]['origin'] and w['local'] != model.procs[n_]['local']
+                       for w in model.procs.values()):
+                    info['rem_keeps_renamed_copy'] = True
                 info['rem'].append(n_)
                 spec.append(('rem', opts))
                 model.apply('rem', opts)
